@@ -63,6 +63,10 @@ ASSUMPTIONS = [
     "(thorough); initial file written by the harness (numpy.save / tofile / savez of the statistics matrix); "
     "every history runs in a directory of its own, so state keyed by file NAME cannot leak from one history "
     "into the next (state keyed otherwise could; replays would then differ and be reported as HARNESS-ERROR)",
+    "conditioning: coefficients are offset + spread * (pairwise distinct values of about unit spread) for the "
+    "stated (offset, spread) profiles; every variance is >= 1e-5 in absolute terms and >= 1e-9 of the squared "
+    "mean (an exactly or nearly zero variance is outside the property); the tolerance grows with mean^2/var "
+    "because the property fixes the transform, not the precision of sums and sums of squares",
     "mismatch: a 0-d array is not a feature vector (outside the lattice); lengths {0, 1, F-1, F+1, F+2, 2F}",
 ]
 
@@ -562,6 +566,8 @@ def _replay_local(case, seed):
 
     if case.get("mode") == "global":
         return _replay_global(case, seed)
+    if case.get("mode") == "conditioning":
+        return _replay_conditioning(case, seed)
     shape, dtype, norm_var, axis = tuple(case["shape"]), case["dtype"], case["norm_var"], case["axis"]
     x = _local_data(seed, shape, dtype)
     if int(np.prod(shape)) // shape[axis] < 2:
@@ -652,6 +658,176 @@ def _eval_global(pt, seed):
 def _replay_global(case, seed):
     v, _ = _global_one(seed, case["F"], case["norm_var"], case["dtype"], tuple(case["shape"]),
                        case["axis"], case["in_place"])
+    return core.result(v)
+
+
+# ------------------------------------------------------------------ conditioning lattice (engine L)
+#
+# "(x - mean)/std per coefficient" for EVERY valid set of statistics, also ill-conditioned ones: coefficients
+# whose spread is tiny next to their offset (un-normalised energies: mean 1000, std 2), the reverse (mean ~0,
+# std 1000) and small absolute spreads (std 0.01) - every variance clearly non-zero (>= 1e-5 absolute and
+# >= 1e-9 of the squared mean; an exactly zero variance is where the property defines no value, and the
+# documented zero-variance replacement of the implementation starts at 1e-8 absolute).  Statistics come from
+# every route (none = local, one tensor, vector by vector, two tensors, a statistics file) and are applied
+# through the vector and the tensor route; every result is compared with the direct two-pass formula with a
+# tolerance that scales with the condition number mean^2/var of the coefficient (the property fixes the
+# transform, not the precision of the sufficient statistics it is computed from).
+
+# name -> per coefficient (offset, spread)
+K_PROFILES = {
+    "offset": ((1000.0, 2.0), (-2000.0, 3.0), (1500.0, 4.0), (10.0, 5.0)),
+    "offset_hi": ((1.0e4, 3.0), (-3.0e4, 7.0), (1.0e5, 40.0), (0.25, 1.0)),
+    "reverse": ((0.5, 300.0), (-1.0e-3, 1.0e3), (0.0, 1.0e4), (2.0, 1.0)),
+    "small_spread": ((0.0, 1.0e-2), (1.0e-3, 1.0e-2), (5.0, 1.0e-2), (-3.0, 1.0)),
+}
+K_N = (6, 12)
+K_STATS = ("local", "acc_tensor", "acc_vectors", "acc_split", "loaded")
+K_DTYPES = ("float64", "float32")
+K_EPS = float(np.finfo(np.float64).eps)
+
+
+def _k_data(seed, profile, n, dtype, offset=0):
+    """n vectors of len(profile) coefficients: offset + spread * (pairwise distinct values of ~unit spread)"""
+    prof = K_PROFILES[profile]
+    F = len(prof)
+    base = _separated(seed, (n, F), offset=30 + offset) / (n * F / 4.0)
+    cols = [prof[f][0] + prof[f][1] * base[:, f] for f in range(F)]
+    return np.stack(cols, axis=1).astype(dtype)
+
+
+def _k_tolerance(x, want, mean, var, axis, norm_var):
+    """|got - want| allowed: relative error of 1/std from var = E[x^2] - mean^2 (cancellation ~ eps * (1 +
+    mean^2/var)) plus the rounding of x * scale - mean * scale, per coefficient along axis"""
+    sl = [None] * x.ndim
+    sl[axis % x.ndim if x.ndim > 1 else 0] = slice(None)
+    sl = tuple(sl)
+    std = np.sqrt(var) if norm_var else np.ones_like(var)
+    rel = (RTOL + 64.0 * K_EPS * (1.0 + mean ** 2 / var)) if norm_var else np.full(var.shape, RTOL)
+    xf = np.abs(np.asarray(x, dtype=np.float64))
+    return rel[sl] * np.abs(want) + 16.0 * K_EPS * (xf + np.abs(mean)[sl]) / std[sl] + 1e-300
+
+
+def _k_object(stats, data, norm_var, scratch):
+    """Standardize holding the statistics of the rows of data, provided by route `stats`"""
+    from pydrobert.speech import post
+
+    n, F = data.shape
+    if stats == "loaded":
+        import math
+
+        m = np.zeros((2, F + 1))
+        for f in range(F):
+            col = [float(v) for v in data[:, f]]
+            m[0, f] = math.fsum(col)
+            m[1, f] = math.fsum(v * v for v in col)
+        m[0, F] = n
+        path = os.path.join(scratch, "stats.npy")
+        np.save(path, m)
+        return post.Standardize(path, norm_var=norm_var)
+    obj = post.Standardize(norm_var=norm_var)
+    if stats == "acc_tensor":
+        obj.accumulate(sig.ro(data), -1)
+    elif stats == "acc_vectors":
+        for row in data:
+            obj.accumulate(sig.ro(row))
+    elif stats == "acc_split":
+        h = n // 2
+        obj.accumulate(sig.ro(data[:h].T), 0)                      # (F, h) along axis 0
+        obj.accumulate(sig.ro(data[h:].reshape(n - h, 1, F)), 2)   # 3-D along axis 2
+    elif stats != "local":
+        raise core.HarnessError(stats)
+    return obj
+
+
+def _k_probes(stats, data, other):
+    """(name, route, array, axis) to apply.  local: the tensor IS the data set (every presentation of it);
+    otherwise the data set and other vectors of the same profile, through the vector and the tensor route"""
+    n, F = data.shape
+    a, b = _factor(n)
+    out = [("2d:-1", "tensor", data, -1), ("2d:0", "tensor", data.T, 0),
+           ("3d:1", "tensor", np.transpose(data.reshape(a, b, F), (0, 2, 1)), 1),
+           ("3d:-1", "tensor", data.reshape(a, b, F), -1)]
+    if stats != "local":
+        out += [("vec:%d" % i, "vector", data[i], -1) for i in (0, n - 1)]
+        out += [("vec:other", "vector", other[0], -1), ("1xF", "tensor", other[1:2], -1),
+                ("Fx1", "tensor", other[2:3].T, 0), ("other:2d", "tensor", other, 1)]
+    return out
+
+
+def _k_one(seed, profile, n, dtype, norm_var, stats, probe, in_place):
+    data = _k_data(seed, profile, n, dtype)
+    other = _k_data(seed, profile, 4, dtype, offset=1)
+    mean, var = ref.mean_var([[float(v) for v in row] for row in data])
+    F = data.shape[1]
+    cond = mean ** 2 / var
+    if not (np.all(var >= 1e-5) and np.all(cond <= 1e9)):
+        raise core.HarnessError("conditioning alphabet left its stated range: var %r cond %r" % (var, cond))
+    scratch = tempfile.mkdtemp(prefix="verif-")
+    try:
+        with warnings.catch_warnings():
+            warnings.simplefilter("ignore")
+            obj = _k_object(stats, data, norm_var, scratch)
+    finally:
+        shutil.rmtree(scratch, ignore_errors=True)
+    name, route, x, axis = [q for q in _k_probes(stats, data, other) if q[0] == probe][0]
+    x = sig.ro(x)
+    want = ref.standardize(x, mean, var, axis, norm_var)
+    tags = dict(mode="conditioning", profile=profile, stats=stats, route=route, norm_var=norm_var,
+                in_place=in_place)
+    case = dict(mode="conditioning", profile=profile, n=n, dtype=dtype, norm_var=norm_var, stats=stats,
+                probe=probe, in_place=in_place)
+    arg = np.array(x, copy=True)
+    with warnings.catch_warnings():
+        warnings.simplefilter("ignore")
+        r = computers.call(obj.apply, arg, axis, in_place)
+    viol = []
+    if not in_place and not _same_bits(arg, x):
+        viol.append(core.violation(dict(tags, what="input_modified"), "apply(in_place=False) changed its input",
+                                   case))
+    if r[0] != "ok":
+        return viol + [core.violation(dict(tags, what="exception", exc=r[1]),
+                                      "apply raised %s: %s" % (r[1], r[2]), case)], "exc"
+    got = r[1]
+    if not isinstance(got, np.ndarray) or got.shape != x.shape:
+        return viol + [core.violation(dict(tags, what="shape"), "result shape %r for input %r" % (
+            getattr(got, "shape", None), x.shape), case)], "shape"
+    if got.dtype != np.float64:
+        return viol + [core.violation(dict(tags, what="dtype"), "result dtype %s, documented float64" % got.dtype,
+                                      case)], "dtype"
+    err = np.abs(got - want)
+    tol = _k_tolerance(x, want, mean, var, axis, norm_var)
+    if not np.all(err <= tol):
+        i = np.unravel_index(np.argmax(err / tol), err.shape)
+        f = i[axis % x.ndim] if x.ndim > 1 else i[0]
+        viol.append(core.violation(
+            dict(tags, what="values"),
+            "%s statistics of %d %s vectors, profile %s, apply(%s)%s = %r, direct formula (x - mean)/std = %r "
+            "[coefficient %d: mean %r, std %r, mean^2/var %.3g; allowed error %.3g]" % (
+                stats, n, dtype, profile, name, list(map(int, i)), float(got[i]), float(want[i]), int(f),
+                float(mean[f]), float(np.sqrt(var[f])), float(cond[f]), float(tol[i])), case))
+    return viol, "ok"
+
+
+def _eval_conditioning(pt, seed):
+    profile, n, dtype, norm_var, stats = pt
+    data = _k_data(seed, profile, n, dtype)
+    other = _k_data(seed, profile, 4, dtype, offset=1)
+    viol, evals, obs = [], 0, set()
+    for name, route, _, _ in _k_probes(stats, data, other):
+        for in_place in (False, True):
+            v, o = _k_one(seed, profile, n, dtype, bool(norm_var), stats, name, in_place)
+            evals += 1
+            viol.extend(v)
+            obs.add((o, route, in_place))
+    return core.result(viol, evals=evals, nontrivial_count=evals, obs=sorted(map(str, obs)), obs_is_set=True,
+                       sample=dict(profile=profile, coefficients=[list(c) for c in K_PROFILES[profile]], n=n,
+                                   dtype=dtype, norm_var=bool(norm_var), stats=stats,
+                                   probes=[q[0] for q in _k_probes(stats, data, other)]))
+
+
+def _replay_conditioning(case, seed):
+    v, _ = _k_one(seed, case["profile"], case["n"], case["dtype"], case["norm_var"], case["stats"],
+                  case["probe"], case["in_place"])
     return core.result(v)
 
 
@@ -1536,6 +1712,8 @@ def subchecks(tier, seed):
             for d in ("float64", "float32", "int32", "int16") for nv in (True, False)]
     gpts = [(F, nv, d) for F in ((1, 2, 3) if tier == "quick" else (1, 2, 3, 5))
             for nv in (True, False) for d in ("float64", "float32", "int32", "int16")]
+    kpts = [(p, n, d, nv, st) for p in K_PROFILES for n in K_N for d in K_DTYPES for nv in (True, False)
+            for st in K_STATS]
     return [
         core.SubCheck(
             "accumulate_bfs", cs, lambda c: explore_config(c, seed),
@@ -1584,6 +1762,22 @@ def subchecks(tier, seed):
             "equals (x-mean)/std; an axis of F+-1 coefficients raises ValueError",
             axes=dict(F=[1, 2, 3], norm_var=[True, False], dtype=["float64", "float32", "int32", "int16"],
                       other_extents=[1, 2, 3]),
+            replay=lambda case: _replay_local(case, seed)),
+        core.SubCheck(
+            "conditioning", kpts, lambda p: _eval_conditioning(p, seed),
+            "ill-conditioned but valid statistics: 4-coefficient vectors whose coefficients are (offset, spread) "
+            "pairs of a profile %s (mean^2/var from ~0 to ~2e7, every variance >= 1e-5 and clearly non-zero) x "
+            "number of vectors x stored dtype x norm_var x where the statistics come from {local = the tensor "
+            "itself, one accumulated tensor, vector by vector, two tensors along different axes, a statistics "
+            "file}; inner loop: apply() through the TENSOR route (the data set as 2-D along -1 / 0 and 3-D along "
+            "1 / -1, other vectors as 1xF, Fx1, 4xF) and the VECTOR route (first / last vector of the set, "
+            "another vector) x in_place: equals the direct two-pass (x - mean)/std within 1e-10 + 64 eps (1 + "
+            "mean^2/var) relative, float64, input bit-identical unless in_place" % (
+                {k: [list(c) for c in v] for k, v in K_PROFILES.items()},),
+            axes=dict(profile={k: [list(c) for c in v] for k, v in K_PROFILES.items()}, n=list(K_N),
+                      dtype=list(K_DTYPES), norm_var=[True, False], stats=list(K_STATS),
+                      probes="2d:-1, 2d:0, 3d:1, 3d:-1 (+ vec:0, vec:n-1, vec:other, 1xF, Fx1, other:2d with "
+                             "statistics)", in_place=[False, True]),
             replay=lambda case: _replay_local(case, seed)),
         core.SubCheck(
             "instances", _instance_configs(tier), lambda c: _eval_instances(c, seed),
